@@ -123,7 +123,8 @@ def run(ctx):
                 if rng.random() < 0.2:
                     nth = rng.choice([1, 2, 2, 3, 4])
                     cnt = {"n": 0}
-                    stt = rng.choice([(0x02, ()), (0x05, ()), (0xFF, (0x2107,)), (0x0F, ())])
+                    # (also general statuses the library has no text for - 0x17..0x21, 0x30, 0xD0: a refusal is a refusal)
+                    stt = rng.choice([(0x02, ()), (0x05, ()), (0xFF, (0x2107,)), (0x0F, ()), (0x17, ()), (0x19, ()), (0x20, ()), (0x21, (0x0003,)), (0x30, ()), (0xD0, ())])
 
                     def inject(rq, loc, nth=nth, cnt=cnt, stt=stt):
                         if rq.service in (0x4D, 0x53, 0x4E):
